@@ -91,7 +91,7 @@ func openVariant(dir string, o sysOpts, ro bool, variant int) (*badger.DB, error
 }
 
 // ---- file tree ----
-func treeHash(dir string) map[string]string {
+func reopenTreeHash(dir string) map[string]string {
 	out := map[string]string{}
 	filepath.Walk(dir, func(p string, info os.FileInfo, err error) error {
 		if err != nil {
@@ -456,7 +456,7 @@ func (x *xh) closeDB() error {
 		return err
 	}
 	if x.ro {
-		d := treeDiff(x.roHash, treeHash(x.dir))
+		d := treeDiff(x.roHash, reopenTreeHash(x.dir))
 		x.c.Oracle(len(d) == 0, "c07-readonly-open-modified-files", "a read-only session (Open, reads, Close) changed the file tree: "+strings.Join(d, "; "), J{"history": x.desc, "phase": "after-close"})
 		x.ro = false
 	}
@@ -485,7 +485,7 @@ func (x *xh) reopen(ro bool, variant int) error {
 		return err
 	}
 	if ro {
-		x.roHash = treeHash(x.dir)
+		x.roHash = reopenTreeHash(x.dir)
 	}
 	t0 := time.Now()
 	db, err := openVariant(x.dir, x.o, ro, variant)
@@ -504,7 +504,7 @@ func (x *xh) reopen(ro bool, variant int) error {
 	same, d := sameLines(pre, post)
 	x.c.Oracle(same, "c07-read-differs-after-reopen", "a read differs between just before Close and after Open: "+d, J{"history": x.desc, "ro": ro, "variant": variant})
 	if ro {
-		dd := treeDiff(x.roHash, treeHash(x.dir))
+		dd := treeDiff(x.roHash, reopenTreeHash(x.dir))
 		x.c.Oracle(len(dd) == 0, "c07-readonly-open-modified-files", "a read-only Open plus reads changed the file tree: "+strings.Join(dd, "; "), J{"history": x.desc, "phase": "open"})
 		x.nRO++
 	}
